@@ -5,14 +5,20 @@ source reading (e.g. `fg . c == fuvw` for the shell field functions) and reports
 
     failures, rows = source_tie.run(('conecyl_clpt', 'conecyl_fsdt', 'mgi'))
 """
+import atexit
+import ctypes
+import glob
+import hashlib
 import os
+import subprocess
+from concurrent.futures import ThreadPoolExecutor
 
 import numpy as np
 
 from tools import cyexec
 from tools import cyexec_check as cc
 
-GROUPS = ('integrate', 'conecyl_clpt', 'conecyl_fsdt', 'mgi', 'panel_field', 'linear_kernels')
+GROUPS = ('integrate', 'conecyl_clpt', 'conecyl_fsdt', 'mgi', 'panel_field', 'linear_kernels', 'stiffener_kernels')
 
 
 def _conecyl(kind):
@@ -63,8 +69,176 @@ def run(groups, quiet=True):
             rel = 'conecyl/clpt/%s.pyx' % name
             attempt(rel, lambda rel=rel, name=name: cc.kernel_checks(
                 tally, cyexec.load(cc.source(rel), repo=cc.REPO), cc.binary('compmech.conecyl.clpt.' + name), 'clpt/' + name))
+    if 'stiffener_kernels' in groups:
+        ext = None
+        try:
+            ext = stiffener_externs()
+        except (OSError, RuntimeError, AttributeError) as e:
+            tally.line('stiffener/models (C library)', 0, float('inf'), False, 'compmech/lib/src could not be compiled / loaded: %s' % str(e)[:200])
+        if ext is not None:
+            for name in STIFFENER_FILES:
+                rel = 'stiffener/models/%s.pyx' % name
+                attempt(rel, lambda rel=rel, name=name: stiffener_checks(
+                    tally, cyexec.load(cc.source(rel), repo=cc.REPO, externs=ext), cc.binary('compmech.stiffener.models.' + name), name))
     failures = [(label, worst, note) for label, ncases, worst, ok, note in tally.rows if not ok]
     return failures, tally.rows
+
+
+# ---------------------------------------------------------------------------------------------- stiffener kernels
+STIFFENER_FILES = ('bladestiff1d_clt_donnell_bardell', 'bladestiff2d_clt_donnell_bardell', 'tstiff2d_clt_donnell_bardell')
+# C files of compmech/lib/src that define the external functions the three kernel files declare (`cdef extern from 'bardell*.h'`)
+_STIFF_C = ('bardell.c', 'bardell_functions.c', 'bardell_integral_ff_12.c', 'bardell_integral_ffxi_12.c', 'bardell_integral_fxifxi_12.c',
+            'bardell_integral_ff_c0c1.c', 'bardell_integral_ffxi_c0c1.c')
+_STIFF_LIB = {}
+
+
+def stiffener_externs():
+    """{name: ctypes function} for integral_ff/ffxi/ffxixi/fxifxi/fxifxixi/fxixifxixi, integral_{ff,ffxi,fxifxi}_12,
+    integral_{ff,ffxi}_c0c1, calc_f/calc_fxi/calc_fxixi - compiled with gcc -O0 from compmech/lib/src/*.c of the tree under test
+    (signatures as in tools/props/C10.py CLib).  Built once per process; the shared object lives under .scratch/source_tie/ and is
+    keyed by the hash of the C sources, so an edited C file is recompiled and an unchanged one is not."""
+    if 'ext' in _STIFF_LIB:
+        return _STIFF_LIB['ext']
+    src = os.path.join(cc.REPO, 'compmech', 'lib', 'src')
+    h = hashlib.sha256()
+    for f in _STIFF_C:
+        with open(os.path.join(src, f), 'rb') as fh:
+            h.update(f.encode() + b'\0' + fh.read() + b'\0')
+    out = os.path.join(cc.ROOT, '.scratch', 'source_tie')
+    os.makedirs(out, exist_ok=True)
+    so = os.path.join(out, 'libbardell_%s.so' % h.hexdigest()[:20])
+    if not os.path.exists(so):
+        tmp = os.path.join(out, 'build_%d' % os.getpid())
+        os.makedirs(tmp, exist_ok=True)
+
+        def compile_one(f):
+            o = os.path.join(tmp, f[:-2] + '.o')
+            p = subprocess.run(['gcc', '-O0', '-fPIC', '-c', os.path.join(src, f), '-o', o], stdout=subprocess.PIPE, stderr=subprocess.STDOUT,
+                               text=True)
+            if p.returncode != 0:
+                raise RuntimeError('gcc failed on %s: %s' % (f, p.stdout[-400:]))
+            return o
+        try:
+            with ThreadPoolExecutor(8) as ex:
+                objs = list(ex.map(compile_one, _STIFF_C))
+            p = subprocess.run(['gcc', '-shared', '-o', so + '.%d' % os.getpid()] + objs + ['-lm'], stdout=subprocess.PIPE,
+                               stderr=subprocess.STDOUT, text=True)
+            if p.returncode != 0:
+                raise RuntimeError('gcc link failed: ' + p.stdout[-400:])
+            os.replace(so + '.%d' % os.getpid(), so)
+        finally:
+            for f in glob.glob(os.path.join(tmp, '*')):
+                os.remove(f)
+            os.rmdir(tmp)
+    lib = ctypes.CDLL(so)
+    D, I = ctypes.c_double, ctypes.c_int
+    ext = {}
+    for fam in ('ff', 'ffxi', 'ffxixi', 'fxifxi', 'fxifxixi', 'fxixifxixi'):
+        fn = getattr(lib, 'integral_' + fam)
+        fn.restype, fn.argtypes = D, [I, I] + [D] * 8
+        ext['integral_' + fam] = fn
+    for fam in ('ff_12', 'ffxi_12', 'fxifxi_12', 'ff_c0c1', 'ffxi_c0c1'):
+        fn = getattr(lib, 'integral_' + fam)
+        fn.restype, fn.argtypes = D, [D, D, I, I] + [D] * 8
+        ext['integral_' + fam] = fn
+    for nm in ('calc_f', 'calc_fxi', 'calc_fxixi'):
+        fn = getattr(lib, nm)
+        fn.restype, fn.argtypes = D, [I, D, D, D, D, D]
+        ext[nm] = fn
+    _STIFF_LIB['ext'] = ext
+    _STIFF_LIB['so'] = so
+    return ext
+
+
+def _flags(r, nquad):
+    """`nquad` quadruples (1t, 1r, 2t, 2r) of edge flags as the stiffener classes pass them: 0. or 1."""
+    out = []
+    for _ in range(nquad):
+        out += [float(r.randint(0, 2)) for _ in range(4)]
+    if nquad and not any(out):
+        out[0] = 1.
+    return out
+
+
+def stiffener_cases(fname, seed, ncases=10):
+    """positional argument lists in the order the stiffener classes call the compiled kernels (compmech/stiffener/bladestiff1d.py,
+    bladestiff2d.py, tstiff2d.py): bay geometry, flange / base geometry and beam constants of realistic magnitude, random series orders
+    for skin (m, n) and flange / base (m1, n1), 0/1 edge flags, random placement (row0, col0) inside a larger matrix"""
+    r = np.random.RandomState(seed)
+    cases = []
+    for t in range(ncases):
+        m, n, m1, n1 = (int(r.randint(1, 8)) for _ in range(4))
+        if t == 0:
+            m, n, m1, n1 = 9, 7, 8, 6             # above the four boundary functions in both directions
+        a, b = float(r.uniform(0.3, 3.)), float(r.uniform(0.2, 2.))
+        ys = float(r.choice([0., b, r.uniform(0.05, 0.95) * b]))
+        h, hb, hf = (float(r.uniform(1e-4, 5e-3)) for _ in range(3))
+        bf = float(r.uniform(0.01, 0.12))
+        nskin, nsub = 3 * m * n, 3 * m1 * n1
+        pad = int(r.randint(0, 7))
+        if fname == 'fk0f':
+            E1 = float(r.uniform(1e6, 2e8))
+            row0 = int(r.randint(0, 5))
+            args = [ys, a, b, bf, bf / 2. + hb + h / 2., E1, bf ** 2 / 12. * E1, float(r.uniform(-1, 1) * 1e-2 * E1 * hf),
+                    hf * bf ** 3 / 12. + bf * hf ** 3 / 12., m, n] + _flags(r, 4) + [nskin + row0 + pad, row0, row0]
+        elif fname == 'fkG0f':
+            row0 = int(r.randint(0, 5))
+            args = [ys, float(r.uniform(-1, 1) * 1e4), a, b, bf, m, n] + _flags(r, 2) + [nskin + row0 + pad, row0, row0]
+        elif fname == 'fkMf':
+            row0 = int(r.randint(0, 5))
+            args = [ys, float(r.uniform(1e3, 8e3)), h, hb, hf, a, b, bf, bf / 2. + hb + h / 2., m, n] + _flags(r, 6) + \
+                   [nskin + row0 + pad, row0, row0]
+        elif fname == 'fkCss':
+            args = [float(10 ** r.uniform(5, 10)), float(10 ** r.uniform(1, 6)), ys, a, b, m, n] + _flags(r, 6) + [nskin + nsub + pad, 0, 0]
+        elif fname == 'fkCsf':
+            col0 = nskin + int(r.randint(0, 4))
+            args = [float(10 ** r.uniform(5, 10)), float(10 ** r.uniform(1, 6)), ys, a, b, bf, m, n, m1, n1] + _flags(r, 12) + \
+                   [col0 + nsub + pad, 0, col0]
+        elif fname == 'fkCff':
+            row0 = nskin + int(r.randint(0, 4))
+            args = [float(10 ** r.uniform(5, 10)), float(10 ** r.uniform(1, 6)), a, bf, m1, n1] + _flags(r, 6) + [row0 + nsub + pad, row0, row0]
+        else:
+            bb = float(r.uniform(0.05, 0.5) * b)
+            yc = float(r.uniform(bb / 2., b - bb / 2.))
+            y1, y2 = yc - bb / 2., yc + bb / 2.
+            if t == 1:
+                y1, y2 = 0., b
+            kt = float(10 ** r.uniform(5, 10))
+            dpb = h / 2. + hb / 2.
+            if fname == 'fkCppy1y2':
+                args = [y1, y2, kt, a, b, dpb, m, n] + _flags(r, 6) + [nskin + nsub + pad, 0, 0]
+            elif fname == 'fkCpby1y2':
+                col0 = nskin + int(r.randint(0, 4))
+                args = [y1, y2, kt, a, b, dpb, m, n, m1, n1] + _flags(r, 12) + [col0 + nsub + pad, 0, col0]
+            elif fname == 'fkCbbpby1y2':
+                row0 = nskin + int(r.randint(0, 4))
+                args = [y1, y2, kt, a, b, m1, n1] + _flags(r, 6) + [row0 + nsub + pad, row0, row0]
+            else:
+                raise ValueError(fname)
+        cases.append((args, {}))
+    return cases
+
+
+def stiffener_checks(tally, ns, mod, name, ncases=10):
+    """every `fk*` function of one stiffener kernel file: source reading vs compiled module, dense matrices, 1e-12 relative"""
+    names = sorted(k for k, v in ns.items() if k.startswith('fk') and callable(v))
+    binnames = sorted(k for k in dir(mod) if k.startswith('fk') and callable(getattr(mod, k)))
+    if names != binnames:
+        tally.line('stiffener/models/%s' % name, 0, float('inf'), False, 'kernel functions of the source %s, of the compiled module %s'
+                   % (names, binnames))
+        return False
+    ok = True
+    for k, fname in enumerate(names):
+        def dense(f):
+            return lambda *a: np.asarray(f(*a).toarray(), dtype=float)
+        try:
+            cases = stiffener_cases(fname, 4100 + 17 * k + len(name), ncases)
+        except ValueError:
+            tally.line('stiffener/models/%s.%s' % (name, fname), 0, float('inf'), False, 'no argument builder for this function')
+            ok = False
+            continue
+        ok &= cc.compare(tally, 'stiffener/models/%s.%s' % (name, fname), dense(ns[fname]), dense(getattr(mod, fname)), cases)
+    return ok
 
 
 def conecyl_field_predicate(seed=7, n=6):
